@@ -370,6 +370,8 @@ fn completing_attempts(log: &[LogEv], initially_complete: bool) -> usize {
 struct Created<A> {
     t: u64,
     addr: SocketAddr,
+    /// protocol version the source was created with (Debug rendering)
+    proto: String,
     dns: usize,
     /// caller-defined observation taken when the system received the create event
     aux: A,
@@ -453,7 +455,7 @@ async fn drive<S: sh::Spawner + Send + 'static, A>(
             return Err(Outcome::fail(format!("{tag}/non-ntp-create"), "unexpected create parameters"));
         };
         let n = created.len();
-        created.push(Created { t: us(t0), addr: p.addr, dns: w_dns::calls(host), aux: probe() });
+        created.push(Created { t: us(t0), addr: p.addr, proto: format!("{:?}", p.protocol_version), dns: w_dns::calls(host), aux: probe() });
         timeline.push((true, n));
         let id = p.id;
         let now = Instant::now();
@@ -801,6 +803,12 @@ pub struct NtsCase {
     pub idles: Vec<u32>,
     pub start_jitter_us: u16,
     pub run_ms: u32,
+    /// configured `ntp-version` of the source: 0 = 4, 1 = 5, 2 = auto
+    #[serde(default)]
+    pub ntp_version: u8,
+    /// the key-exchange server picks NTPv4 whenever the client offers it
+    #[serde(default)]
+    pub ke_prefers_v4: bool,
 }
 
 fn nts_strategy(tier: Tier) -> impl Strategy<Value = NtsCase> {
@@ -819,7 +827,10 @@ fn nts_strategy(tier: Tier) -> impl Strategy<Value = NtsCase> {
         prop_oneof![2 => Just(0u16), 1 => 1u16..1000],
         prop_oneof![1 => 0u32..3000, 3 => 3000u32..20_000],
     )
-        .prop_map(|(ke_dns, ke, hosts, reacts, idles, start_jitter_us, run_ms)| NtsCase {
+        .prop_flat_map(|t| (Just(t), 0u8..3, any::<bool>()))
+        .prop_map(|((ke_dns, ke, hosts, reacts, idles, start_jitter_us, run_ms), ntp_version, ke_prefers_v4)| NtsCase {
+            ntp_version,
+            ke_prefers_v4,
             ke_dns,
             ke,
             hosts,
@@ -844,7 +855,7 @@ async fn run_nts(c: &NtsCase) -> Outcome {
     labels.add("nts");
     w_dns::reset();
     w_ntsked::script_dns(&c.ke_dns, &c.hosts);
-    let server = match w_ntsked::start(c.ke.clone(), false, Instant::now(), None).await {
+    let server = match w_ntsked::start_with(c.ke.clone(), false, Instant::now(), None, c.ke_prefers_v4).await {
         Ok(s) => s,
         Err(e) => {
             eprintln!("INCONCLUSIVE: cannot start the loopback NTS-KE server: {e}");
@@ -855,8 +866,17 @@ async fn run_nts(c: &NtsCase) -> Outcome {
         address: sh::NtsKeAddress(sh::normalized_address(w_ntsked::KE_HOST, server.port)),
         enable_srv_resolution: false,
         certificate_authorities: w_ntsked::test_cas(),
-        ntp_version: ProtocolVersion::V4,
+        ntp_version: match c.ntp_version % 3 {
+            0 => ProtocolVersion::V4,
+            1 => ProtocolVersion::V5,
+            _ => ProtocolVersion::v4_upgrading_to_v5_with_default_tries(),
+        },
     };
+    labels.add(match c.ntp_version % 3 {
+        0 => "nts-cfg-v4",
+        1 => "nts-cfg-v5",
+        _ => "nts-cfg-auto",
+    });
     let spawner = match sh::NtsSpawner::new(cfg, SourceConfig::default()) {
         Ok(s) => w_ntsked::Spin { inner: s },
         Err(e) => return Outcome::fail("nts/spawner-config-rejected", format!("NtsSpawner::new: {e}")),
@@ -893,6 +913,24 @@ async fn run_nts(c: &NtsCase) -> Outcome {
                 "nts/source-without-successful-key-exchange",
                 format!("source {} created at {} us, but the latest key exchange ({} accepted) did not deliver cookies", cr.addr, cr.t, cr.aux.accepted),
             );
+        }
+    }
+
+    // ---- an NTS source speaks the NTP version its key exchange negotiated (not the configured preference)
+    for cr in &created {
+        if let Some(ex) = exchanges.get(cr.aux.accepted.wrapping_sub(1)) {
+            let want = match ex.negotiated {
+                Some(0) => "V4",
+                Some(0x8001) => "V5",
+                _ => continue,
+            };
+            labels.add(if want == "V5" { "nts-negotiated-v5" } else { "nts-negotiated-v4" });
+            if cr.proto != want {
+                return Outcome::fail(
+                    "nts/source-version-differs-from-negotiated",
+                    format!("key exchange offered {:x?} and negotiated {:#x}, the source for {} was created with protocol version {}", ex.offered, ex.negotiated.unwrap_or(0), cr.addr, cr.proto),
+                );
+            }
         }
     }
 
@@ -1128,6 +1166,8 @@ impl Property for C36 {
                 idles: vec![],
                 start_jitter_us: 0,
                 run_ms: 10_000,
+                ntp_version: 2,
+                ke_prefers_v4: true,
             }),
             // nts: key exchanges fail in every scripted way before one succeeds; slow exchanges
             Case::Nts(NtsCase {
@@ -1145,6 +1185,8 @@ impl Property for C36 {
                 idles: vec![500, 500],
                 start_jitter_us: 300,
                 run_ms: 40_000,
+                ntp_version: 2,
+                ke_prefers_v4: false,
             }),
         ]
     }
